@@ -7,7 +7,8 @@
    verification, SHA-256, the serde-json-core parser and the XDR decoder as arbitrary
    functions (oracles): the statements hold for every choice of them. *)
 From SC Require Import Lib.Prelude Lib.Int Model.Base64 Model.Verifiers Model.ClientDataSpec
-  Model.SigDataXdrSpec Proofs.Base64 Proofs.Verifiers Proofs.VerifiersIdeal Run.C18 Proofs.C18Monitor.
+  Model.SigDataXdrSpec Proofs.Base64 Proofs.Verifiers Proofs.VerifiersIdeal Run.C18 Proofs.C18Monitor
+  Proofs.C18Round4.
 
 (* ---- base64url ---- *)
 (* RFC 4648 section 5 written out: the octets as one bit string (most significant bit
@@ -148,6 +149,54 @@ Theorem C18_ed25519_iff : forall (ed25519_verify : list Z -> list Z -> list Z ->
 Proof. exact ed_verify_iff. Qed.
 Print Assumptions C18_ed25519_iff.
 
+(* ---- round 4: special values, aliasing, histories, the generic entry path ---- *)
+(* Of the authenticator data the decision reads only its length against the minimum and byte 32:
+   two authenticator data that agree there (the signature counter in bytes 33..36 at 0, at
+   u32::MAX, going down; attested credential data of any length behind it) get the same verdict
+   whenever the signature oracle answers alike on their two digests. *)
+Theorem C18_webauthn_authdata_dependence : forall c parse sha256 pv payload key sig1 sig2 ad1 ad2 cd,
+  (len ad1 <? min_ad c) = (len ad2 <? min_ad c) ->
+  nth_error ad1 32 = nth_error ad2 32 ->
+  pv key (sha256 (ad1 ++ sha256 cd)) sig1 = pv key (sha256 (ad2 ++ sha256 cd)) sig2 ->
+  wa_verify c parse sha256 pv payload key sig1 ad1 cd = wa_verify c parse sha256 pv payload key sig2 ad2 cd.
+Proof. exact wa_verify_authdata_dependence. Qed.
+Print Assumptions C18_webauthn_authdata_dependence.
+
+(* authenticator data and client data being one and the same byte string is no special case *)
+Theorem C18_webauthn_alias_ad_cd : forall c parse sha256 pv payload key sig x,
+  bytes_ok payload = true ->
+  (wa_verify c parse sha256 pv payload key sig x x = Ok true <->
+   len x <= max_cd c /\
+   (exists ty ch, parse x = Some (ty, ch) /\ ty = WEBAUTHN_GET /\
+                  32 <= len payload /\ ch = rfc4648_url_nopad (firstn 32 payload)) /\
+   min_ad c <= len x /\
+   (exists f, nth_error x 32 = Some f /\ Z.testbit f 0 = true /\ Z.testbit f 2 = true /\
+              ~ (Z.testbit f 3 = false /\ Z.testbit f 4 = true)) /\
+   pv key (sha256 (x ++ sha256 x)) sig = true).
+Proof. exact wa_verify_alias_ad_cd. Qed.
+Print Assumptions C18_webauthn_alias_ad_cd.
+
+(* two accepted calls of the contract with the same sig_data authorise the same 32 payload bytes,
+   however the bytes of payload and key_data are cut (re-cutting payload ++ key_data ++ sig_data
+   of an accepted call at other places cannot authorise another payload) *)
+Theorem C18_webauthn_contract_same_sigdata_binds_payload :
+  forall c from_xdr parse sha256 pv p1 p2 kd1 kd2 sd,
+  bytes_ok p1 = true -> bytes_ok p2 = true ->
+  wa_contract c from_xdr parse sha256 pv p1 kd1 sd = Ok true ->
+  wa_contract c from_xdr parse sha256 pv p2 kd2 sd = Ok true ->
+  firstn 32 p1 = firstn 32 p2.
+Proof. exact wa_contract_same_sigdata_binds_payload. Qed.
+Print Assumptions C18_webauthn_contract_same_sigdata_binds_payload.
+
+(* the generic interface hands the Ed25519 contract byte strings of any length: with an oracle
+   that (like the host function on BytesN<32> / BytesN<64>) accepts only 32-byte keys and 64-byte
+   signatures, every other length is a failure whatever the content *)
+Theorem C18_ed25519_wrong_length_rejected : forall (ev : list Z -> list Z -> list Z -> bool),
+  (forall k m s, ev k m s = true -> len k = 32 /\ len s = 64) ->
+  forall payload key sig, len key <> 32 \/ len sig <> 64 -> ed_verify ev payload key sig = Fail.
+Proof. exact ed_wrong_length_rejected. Qed.
+Print Assumptions C18_ed25519_wrong_length_rejected.
+
 (* ---- the monitor run on the implementation's traces accepts every run of the model ---- *)
 (* [wf_trace] is the boolean the monitor itself checks of the inputs: documented bounds in the
    header, bytes and sizes, the oracle answers consistent with the printed client data / XDR
@@ -264,6 +313,36 @@ Example C18_monitor_rejects :
   check (cfg0, [(EdLib [1] (repeat 2 32) (repeat 3 64) false None, Ok (OBool true))]) = (1, 1, 0)%N /\
   check (cfg0, [(Flags 5, Ok OUnit); (Flags 21, Ok OUnit)]) = (2, 2, 0)%N /\
   check (cfg0, [(FlagOne 0 4, Ok OUnit)]) = (1, 1, 0)%N /\ check (cfg0, [(FlagOne 1 1, Ok OUnit)]) = (1, 1, 0)%N.
+Proof. vm_compute. repeat split. Qed.
+
+(* round 4 - the monitor rejects: an encoding MERGED (or-ed) into a buffer of ones instead of written; the
+   tail of the buffer overwritten; an argument that is not a byte string accepted / answered with false; an
+   Ed25519 key of 33 bytes (a valid key and one more byte) accepted; a long authenticator data (300 bytes,
+   genuine) rejected; the contract accepting payload ++ key_data ++ sig_data re-cut (33-byte payload whose
+   key does not verify); a genuine assertion with the counter at 0 rejected; and it accepts the correct ones *)
+Definition ad_long (flags : Z) : list Z := repeat 7 32 ++ flags :: repeat 9 267.
+Definition asn_ad (ad : list Z) (e : option bool) : assertion :=
+  {| a_payload := pay0; a_key := repeat 4 65; a_sig := repeat 1 64; a_ad := ad; a_cd := cd0;
+     a_parsed := Some (WEBAUTHN_GET, ch0); a_sigok := true; a_expect := e |}.
+Example C18_round4_monitor :
+  check (cfg0, [(B64F [255; 255; 255; 255] [102], Ok (OBytes [90; 103; 255; 255]));
+                (B64F [255] [102], Fail);
+                (BadArg 0 103, Fail);
+                (EdEx [1] (repeat 2 33) (repeat 3 64) false (Some false), Fail);
+                (WaLib (asn_ad (ad_long 5) (Some true)), Ok (OBool true));
+                (WaLib (asn_ad (repeat 7 32 ++ [5; 0; 0; 0; 0]) (Some true)), Ok (OBool true));
+                (WaLib (asn_ad (repeat 7 32 ++ [5; 255; 255; 255; 255]) (Some true)), Ok (OBool true))]) = (0, 0, 0)%N /\
+  check (cfg0, [(B64F [255; 255; 255; 255] [102], Ok (OBytes [255; 255; 255; 255]))]) = (1, 1, 0)%N /\
+  check (cfg0, [(B64F [255; 255; 255; 255] [102], Ok (OBytes [90; 103; 0; 0]))]) = (1, 1, 0)%N /\
+  check (cfg0, [(BadArg 0 103, Ok (OBool true))]) = (1, 1, 0)%N /\
+  check (cfg0, [(BadArg 1 204, Ok (OBool false))]) = (1, 1, 0)%N /\
+  check (cfg0, [(EdEx [1] (repeat 2 33) (repeat 3 64) false None, Ok (OBool true))]) = (1, 1, 0)%N /\
+  check (cfg0, [(WaLib (asn_ad (ad_long 5) (Some true)), Fail)]) = (1, 1, 0)%N /\
+  check (cfg0, [(WaLib (asn_ad (repeat 7 32 ++ [5; 0; 0; 0; 0]) None), Fail)]) = (1, 1, 0)%N /\
+  snd (fst (check (cfg0, [(WaEx (repeat 4 64 ++ [9; 9; 9]) xdr0 true
+                             {| a_payload := pay0 ++ [4]; a_key := repeat 4 64 ++ [9]; a_sig := repeat 1 64;
+                                a_ad := ad0 29; a_cd := cd0; a_parsed := Some (WEBAUTHN_GET, ch0);
+                                a_sigok := false; a_expect := Some false |}, Ok (OBool true))]))) = 1%N.
 Proof. vm_compute. repeat split. Qed.
 
 (* the monitor is not the model: an observation on which model and implementation would agree
